@@ -524,6 +524,7 @@ package valid
 
 //@ func NewVStruct
 //@   requires cache.inv()
+//@   modifies nothing
 //@   ensures vs.ok(result) && cache.inv() && result.ruleMap == nil
 
 //@ func (*VStruct).free
@@ -574,8 +575,164 @@ package valid
 
 //@ func (*VStruct).getError
 //@   requires vs.ok(v)
+//@   modifies sb.content(v.errBuf), sb.nw(v.errBuf), v.ruleMap, v.vc
 
 //@ func (*VStruct).Valid
 //@   requires vs.ok(v) && cache.inv()
+//@   ensures [C08 entry.inv] cache.inv()
 //@   loop#0 invariant vs.ok(v) && cache.inv()
 //@   loop#1 invariant vs.ok(v) && cache.inv() && iter != nil && mi.src(iter) == reflectValue && mi.pos(iter) >= -1
+
+// ---------------------------------------------------------------------------
+// VVar / VMap / VUrl
+
+//@ func NewVVar
+//@   modifies nothing
+//@   ensures vv.ok(result) && result.ruleObj != nil
+
+//@ func (*VVar).free
+//@   requires vv.ok(v)
+//@   modifies sb.content(v.errBuf), v.ruleObj, v.vc
+
+//@ func (RM).Set
+//@   requires [C13 rm.nil] r != nil
+//@   modifies mapof(r)
+//@   ensures result == r
+
+//@ func (*VVar).SetRules
+//@   requires vv.ok(v) && v.ruleObj != nil
+//@   modifies mapof(v.ruleObj)
+//@   ensures result == v && vv.ok(v)
+
+//@ func (*VVar).SetValidFn
+//@   requires vv.ok(v)
+//@   modifies v.vc.validFn, mapof(v.vc.validFn)
+//@   ensures result == v && vv.ok(v)
+
+//@ func (*VVar).getValidFn
+//@   requires vv.ok(v)
+//@   modifies nothing
+//@   ensures [C16 fn.local]  v.vc.validFn != nil && has(v.vc.validFn, validName) ==> result0 == v.vc.validFn[validName] && result1 == nil
+//@   ensures [C16 fn.global] !(v.vc.validFn != nil && has(v.vc.validFn, validName)) && has(validName2FnMap, validName) ==> result0 == validName2FnMap[validName] && result1 == nil
+//@   ensures [C16 fn.unknown] !(v.vc.validFn != nil && has(v.vc.validFn, validName)) && !has(validName2FnMap, validName) ==> result0 == nil && result1 != nil
+
+//@ func (*VVar).validate
+//@   requires vv.ok(v) && rv.valid(tv) && !rv.ro(tv)
+//@   modifies sb.content(v.errBuf), sb.nw(v.errBuf)
+//@   ensures result == v && vv.ok(v)
+//@   loop#0 invariant vv.ok(v)
+
+//@ func (*VVar).getError
+//@   requires vv.ok(v)
+
+//@ func (*VVar).Valid
+//@   requires vv.ok(v)
+//@   loop#0 invariant ty != nil
+
+//@ func NewVMap
+//@   modifies nothing
+//@   ensures vm.ok(result) && fresh(result)
+
+//@ func (*VMap).SetRule
+//@   requires vm.ok(v)
+//@   modifies v.ruleObj
+//@   ensures result == v && vm.ok(v) && v.ruleObj == ruleObj
+
+//@ func (*VMap).SetValidFn
+//@   requires vm.ok(v)
+//@   modifies v.vc.validFn, mapof(v.vc.validFn)
+//@   ensures result == v && vm.ok(v)
+
+//@ func (*VMap).getValidFn
+//@   requires vm.ok(v)
+//@   modifies nothing
+//@   ensures [C16 fn.local]  v.vc.validFn != nil && has(v.vc.validFn, validName) ==> result0 == v.vc.validFn[validName] && result1 == nil
+//@   ensures [C16 fn.global] !(v.vc.validFn != nil && has(v.vc.validFn, validName)) && has(validName2FnMap, validName) ==> result0 == validName2FnMap[validName] && result1 == nil
+//@   ensures [C16 fn.unknown] !(v.vc.validFn != nil && has(v.vc.validFn, validName)) && !has(validName2FnMap, validName) ==> result0 == nil && result1 != nil
+
+//@ func (*VMap).getKey
+//@   modifies nothing
+
+//@ func (*VMap).validate
+//@   requires vm.ok(v) && rv.valid(tv) && !rv.ro(tv)
+//@   modifies sb.content(v.errBuf), sb.nw(v.errBuf), v.vc.valid2FieldsMap, "MapDom.String.Slice", "MapVal.String.Slice", "MapLen.String.Slice", "Mem.Int"
+//@   ensures result == v && vm.ok(v)
+//@   loop#0 invariant vm.ok(v) && mapIter != nil && mi.src(mapIter) == tv && mi.pos(mapIter) >= -1
+//@   loop#1 invariant vm.ok(v) && mapIter != nil && mi.src(mapIter) == tv && 0 <= mi.pos(mapIter) && mi.pos(mapIter) < rv.len(tv)
+
+//@ func (*VMap).getError
+//@   requires vm.ok(v)
+
+//@ func (*VMap).Valid
+//@   requires vm.ok(v)
+//@   loop#0 invariant vm.ok(v) && 0 <= i && l == rv.len(tv)
+
+//@ func NewVUrl
+//@   modifies nothing
+//@   ensures vu.ok(result) && fresh(result)
+
+//@ func (*VUrl).SetRule
+//@   requires vu.ok(v)
+//@   modifies v.ruleObj
+//@   ensures result == v && vu.ok(v) && v.ruleObj == ruleObj
+
+//@ func (*VUrl).SetValidFn
+//@   requires vu.ok(v)
+//@   modifies v.vc.validFn, mapof(v.vc.validFn)
+//@   ensures result == v && vu.ok(v)
+
+//@ func (*VUrl).getValidFn
+//@   requires vu.ok(v)
+//@   modifies nothing
+//@   ensures [C16 fn.local]  v.vc.validFn != nil && has(v.vc.validFn, validName) ==> result0 == v.vc.validFn[validName] && result1 == nil
+//@   ensures [C16 fn.global] !(v.vc.validFn != nil && has(v.vc.validFn, validName)) && has(validName2FnMap, validName) ==> result0 == validName2FnMap[validName] && result1 == nil
+//@   ensures [C16 fn.unknown] !(v.vc.validFn != nil && has(v.vc.validFn, validName)) && !has(validName2FnMap, validName) ==> result0 == nil && result1 != nil
+
+//@ func (*VUrl).validate
+//@   requires vu.ok(v)
+//@   modifies sb.content(v.errBuf), sb.nw(v.errBuf), v.vc.valid2FieldsMap, "MapDom.String.Slice", "MapVal.String.Slice", "MapLen.String.Slice", "Mem.Int"
+//@   ensures result == v && vu.ok(v)
+//@   loop#0 invariant vu.ok(v)
+//@   loop#1 invariant vu.ok(v)
+
+//@ func (*VUrl).getError
+//@   requires vu.ok(v)
+
+//@ func (*VUrl).Valid
+//@   requires vu.ok(v)
+
+// ---------------------------------------------------------------------------
+// package-level entry points (valid.go). cache.inv() is the global invariant of the struct-type cache:
+// it holds initially (empty cache) and every entry point re-establishes it.
+
+//@ func Struct
+//@   requires cache.inv()
+//@   ensures [C08 entry.inv] cache.inv()
+//@ func StructForFn
+//@   requires cache.inv()
+//@   ensures [C08 entry.inv] cache.inv()
+//@ func StructForFns
+//@   requires cache.inv()
+//@   ensures [C08 entry.inv] cache.inv()
+//@   loop#0 invariant vs.ok(vs) && cache.inv()
+//@ func NestedStructForRule
+//@   requires cache.inv()
+//@   requires [C13 setrule.key] forall(k Iface :: {has(ruleMap, k)} has(ruleMap, k) ==> k != nil)
+//@   ensures [C08 entry.inv] cache.inv()
+//@   loop#0 invariant vs.ok(vs) && cache.inv() && rng.pos(0) >= 0 && rng.pos(0) <= rng.len(0)
+//@ func ValidateStruct
+//@   requires cache.inv()
+//@   ensures [C08 entry.inv] cache.inv()
+//@ func ValidStructForRule
+//@   requires cache.inv()
+//@   ensures [C08 entry.inv] cache.inv()
+//@ func ValidStructForMyValidFn
+//@   requires cache.inv()
+//@   ensures [C08 entry.inv] cache.inv()
+//@ func Map
+//@ func MapFn
+//@   loop#0 invariant vm.ok(obj)
+//@ func Var
+//@ func VarForFn
+//@ func Url
+//@ func UrlForFn
